@@ -43,23 +43,26 @@ TRUSTED = [
     'of DiagonalOperator; C10/Prims.v: proj_simplex and PointwiseNorm as value-level primitives',
     'Qsqrt_ps: exact square root on squares of rationals (generators construct such inputs)',
 ]
-LEVEL_TEXT = ('Proof: for the heap-level transcription of every _call in proximal_operators.py (with its x-is-out '
-              'branches, copies and temporaries), of the in-place and out-of-place bodies of the nine operator-arithmetic '
-              'classes of operator.py, of Identity/Scaling/Zero/Constant/Multiply/MatrixOperator, of the default in-place '
-              'bridge for operators without `out`, and of DiagonalOperator, Coq proves for EVERY heap, every pair of '
-              'elements x/out that are identical or disjoint, every operator tree (any depth) and every parameter value: '
-              'the in-place call leaves in out exactly the value-level result of the OLD x and changes no other live '
-              'buffer; the out-of-place call returns the same value in a new element; hence P(x, out=x) == P(x). The '
-              'aliased theorem holds over any carrier (no arithmetic law used). The model is tied to the code by '
-              'reifying live operator objects built by the library factories and an in-Coq differential run of P(x), '
-              'P(y,out=y), P(x,out=z) on every branch. The pre-fix proximal_l1 is proved to violate the theorem.')
-LEVEL_NOTE = ('Validated, not proved: that the transcription matches the Python bodies (correspondence on all branches; '
-              'statement coverage of the anchored _call bodies measured), NumPy/ODL primitives being read-then-write, '
-              'SVD of the nuclear-norm proximal and Lambert-W values (opaque functions in the model), user-supplied '
-              'temporaries of the expression classes, rounding/NaN. Axioms: classical reals + funext for the R '
-              'instances; the any-carrier theorem is closed under the global context.')
-TECHNIQUE = ('Coq heap model (store of buffers, fresh-allocation counter) + structural induction over operator trees; '
-             'object reifier + in-Coq differential correspondence')
+LEVEL_TEXT = ('Proof over REGENERATED programs: on every run translate/prox_calls.py (fail-closed Python-ast translator) '
+              're-emits into Gen/ProxCalls.v the heap-level program of every _call of proximal_operators.py (all 14 '
+              'classes + proj_l1, with their x-is-out tests, copies and temporaries), of the proximal classes of '
+              'IndicatorSimplex/IndicatorSumConstraint, and of the in-place and out-of-place bodies of the nine '
+              'expression classes of operator.py and of Scaling/Zero/Constant/MultiplyOperator. Over these definitions '
+              'Coq proves for EVERY heap, every pair of elements x/out that are identical or disjoint, every operator '
+              'tree (any depth, incl. DiagonalOperator, dense MatrixOperator and operators without `out`) and every '
+              'parameter value: the in-place call leaves in out exactly the value-level result of the OLD x and changes '
+              'no other live buffer; the out-of-place call returns the same value in a new element; hence '
+              'P(x, out=x) == P(x). Dropping a copy, swapping the aliased/non-aliased branch or using out as scratch '
+              'before the last read of x breaks these proofs; a construct outside the grammar fails closed. The aliased '
+              'theorem holds over any carrier. Parameters and tree shapes are read off live operator objects and an '
+              'in-Coq differential run of P(x), P(y,out=y), P(x,out=z) validates the translator\'s primitives on every branch.')
+LEVEL_NOTE = ('Validated, not proved: the translator\'s reading of each library call as a read-then-write primitive '
+              '(correspondence on all branches), NumPy/ODL primitives, proj_simplex / PointwiseNorm / SVD / Lambert-W as '
+              'value-level or opaque functions, the three hand-written programs (MatrixOperator.dot, default in-place '
+              'bridge, DiagonalOperator row loop), user-supplied temporaries assumed absent, rounding/NaN. Axioms: '
+              'classical reals + funext for the R instances; the any-carrier theorems are closed under the global context.')
+TECHNIQUE = ('source-to-Gallina translator (regenerated heap programs) + Coq heap model with symbolic execution and structural '
+             'induction over operator trees; object reifier + in-Coq differential correspondence')
 
 
 def translate():
